@@ -254,7 +254,7 @@ func runProve(po proveOpts) (res proveResult) {
 	var jobs []*obJob
 	for _, v := range verifiers {
 		for _, o := range v.obligs {
-			jobs = append(jobs, &obJob{v: v, o: o, values: v.modelSymbols()})
+			jobs = append(jobs, &obJob{v: v, o: o, values: v.modelSymbolsOf(o)})
 		}
 	}
 	workers := runtime.NumCPU() / 2
@@ -459,9 +459,13 @@ func obligationFloor(prop string) int {
 }
 
 // modelSymbols: the symbols whose values are requested from the solver on sat.
-func (v *Verifier) modelSymbols() []string {
+func (v *Verifier) modelSymbolsOf(o *Oblig) []string {
 	var out []string
-	for _, t := range v.paramIn {
+	pin := o.paramIn
+	if pin == nil {
+		pin = v.paramIn
+	}
+	for _, t := range pin {
 		if len(t.Args) == 0 && !t.IsLit {
 			switch {
 			case t.Sort == SInt, t.Sort == SBool, strings.HasPrefix(t.Sort, "(_ BitVec"):
@@ -482,8 +486,11 @@ func writeReplay(dir, prop string, v *Verifier, o *Oblig) string {
 		"property": prop, "obligation": o.Name, "class": o.Class, "function": o.Func, "at": o.Pos, "statement": o.Desc,
 		"verdict": o.Verdict, "solver": o.Solver, "solver_outputs": o.Outputs, "mode": o.Mode,
 	}
-	if o.Verdict == "sat" {
+	if o.Verdict == "sat" || o.Candidate {
 		rec["model"] = o.Model
+		if o.Candidate {
+			rec["model_note"] = "candidate model of the quantifier-free part of the assumptions; confirmed only if the replay below reproduces it"
+		}
 		tryReplay(v, o, rec)
 	}
 	if !o.replayed {
